@@ -46,7 +46,7 @@ import shutil
 import tempfile
 from pathlib import Path
 
-from vf import xform
+from vf import xform, w2_xgroup
 from vf.explore import deviations
 
 PROPERTY = 'C32'
@@ -533,6 +533,11 @@ def worker(case):
 worker.base = None
 
 
+def group_worker(cases):
+    """cases with identical sources and driver (transformation variants): the original is built once"""
+    return w2_xgroup.run_group(cases, apply, base=worker.base, flags=FLAGS)
+
+
 def sigfn(results_by_id):
     def sig(case, r):
         fam = case['family']
@@ -542,8 +547,8 @@ def sigfn(results_by_id):
             label = sw if fam == 'ua' else f'base+{sw}'
             single = results_by_id.get(case_id(fam, label, xf, opts))
             if single and single['verdict'] == r['verdict']:
-                return f'{r["verdict"]} block={sw} xform={fam}/{xf}'
-        return f'{r["verdict"]} blocks={"+".join(case["switches"]) or "base"} xform={fam}/{xf}'
+                return f'{r["verdict"]} block={sw} xform={fam}'
+        return f'{r["verdict"]} blocks={"+".join(case["switches"]) or "base"} xform={fam}'
     return sig
 
 
@@ -552,7 +557,7 @@ def run(ctx):
     cases = make_cases(d)
     worker.base = str(ctx.scratch)
     ctx.reset_pool()
-    results = xform.judge_cases(ctx, cases, worker)
+    results = w2_xgroup.judge_grouped(ctx, cases, group_worker)
     by_id = {r['id']: r for r in results}
     xform.summarise(ctx, cases, results, sigfn(by_id), min_changed=40)
     per_family = {}
@@ -580,7 +585,7 @@ def run(ctx):
 
 
 def replay(case):
-    r = xform.run_case(case, apply, flags=FLAGS)
+    r = w2_xgroup.replay_case(case, apply, flags=FLAGS)
     if r['verdict'] == 'HARNESS':
         raise RuntimeError(r['detail'])
     return None if r['verdict'] in ('ok', 'unchanged-ok', 'refused') else f'{r["verdict"]}: {r["detail"]}'
